@@ -48,8 +48,12 @@ Fixpoint collapse_re2 (in_run : bool) (s : text) : text :=
               else a :: collapse_re2 false t
   end.
 Definition pd_normalize_whitespace (s : text) : text := strip (collapse_re2 false s).
+(* text_cleaning/pandas.py _remove_urls (lines 238-260): result = text.str.replace(url_pattern, "", regex=True);
+   result = result.str.replace(email_pattern, "", regex=True) -- the same two patterns, the same order, RE2's `\s` *)
+Definition pd_remove_urls (s : text) : text := two_pass re2_space s.
 Definition pd_apply (o : cleanop) (s : text) : text :=
-  match o with CSpecial => pd_remove_special s | CWhite => pd_normalize_whitespace s | _ => py_apply o s end.
+  match o with CSpecial => pd_remove_special s | CWhite => pd_normalize_whitespace s | CUrls => pd_remove_urls s
+          | _ => py_apply o s end.
 Definition pd_clean (ops : list cleanop) (s : text) : text := fold_left (fun acc o => pd_apply o acc) ops s.
 Definition odd_space (a : ascii) : bool := re_space a && negb (re2_space a).
 
